@@ -758,6 +758,11 @@ def run(model, rep, tier):
     from rules.c16 import check_builder
     rep.rule('R02.12', 'parallel configuration: every generated statement that touches a shared array is emitted inside the lock of that array (= R16.3)')
     check_builder(model, _Rename(rep, {'R16.3': 'R02.12'}))
+    from rules import round4 as _r4
+    rep.rule('R02.14', 'a code emitter consults a configuring field of its node on every path or on none')
+    _r4.check_fields_on_every_path(model, rep, 'R02.14')
+    rep.rule('R02.15', 'slices of one sequence spread into a call tile it up to single removed elements (numpy-optimisation rewrites keep every operand)')
+    _r4.check_tiling_slices(model, rep, 'R02.15')
     rep.require('R02.1', 15)
     rep.require('R02.2', 7)
     rep.require('R02.3', 8)
